@@ -438,6 +438,10 @@ def r_bound(E):
 
 
 # ---------------------------------------------------------------------------------------------- R-LOCAL
+REGRID_OPS = {"asfreq", "reindex", "resample", "shift", "tz_localize", "tz_convert", "head", "tail", "truncate", "dropna",
+              "drop", "drop_duplicates", "reindex_like", "between_time", "at_time", "first", "last", "date_range"}
+
+
 @rule("R-LOCAL")
 def r_local(E):
     pm = E.pm
@@ -471,6 +475,42 @@ def r_local(E):
                 "R-LOCAL", "UsagePattern.update_utc_hourly_usage_journey_starts conversion",
                 f"the UTC series is `{norm(c)[:80]}` instead of this pattern's local series converted with this pattern's "
                 f"country time zone", rel, c.lineno, fn.name))
+    # what the rule stores is the converter's result: a method applied to it on the way to the attribute must not put the
+    # values on other timestamps (re-gridding drops whatever is off the new grid: zones whose offset changes by a
+    # fraction of an hour), drop rows or convert a second time
+    if conv:
+        from ..astutil import nodes_through_helpers as _nth
+        applied, frontier, seen_names = [], [conv[0]], set()
+        while frontier:
+            e = frontier.pop()
+            par = getattr(e, "_parent", None)
+            while isinstance(par, ast.Attribute) and isinstance(getattr(par, "_parent", None), ast.Call) \
+                    and par._parent.func is par:
+                applied.append((par.attr, par._parent))
+                e = par._parent
+                par = getattr(e, "_parent", None)
+            if isinstance(par, ast.Assign) and par.value is e and isinstance(par.targets[0], ast.Name) \
+                    and par.targets[0].id not in seen_names:
+                seen_names.add(par.targets[0].id)
+                frontier += [x for x in ast.walk(fn) if isinstance(x, ast.Name) and isinstance(x.ctx, ast.Load)
+                             and x.id == par.targets[0].id and x.lineno >= par.lineno]
+        finder = pm.helper_finder("ExplainableHourlyQuantities")
+        for m, call in applied:
+            res.instances += 1
+            h = finder(m)
+            if h is None:
+                continue
+            bad = next((n for n in _nth(h, finder) if
+                        (isinstance(n, ast.Call) and isinstance(n.func, ast.Attribute) and n.func.attr in REGRID_OPS)
+                        or (isinstance(n, ast.Attribute) and n.attr in ("iloc", "loc") and
+                            isinstance(getattr(n, "_parent", None), ast.Subscript))), None)
+            if bad is not None:
+                res.findings.append(Finding(
+                    "R-LOCAL", f"UsagePattern.update_utc_hourly_usage_journey_starts applies .{m}() to the converted series",
+                    f"the rule applies ExplainableHourlyQuantities.{m} to the result of convert_to_utc, and that method "
+                    f"re-indexes / cuts the frame (`{norm(bad)[:60]}`): values whose UTC timestamp is not on the new grid (a "
+                    f"zone whose offset changes by a fraction of an hour inside the series) or in the kept part are "
+                    f"dropped, so the total is not preserved", rel, call.lineno, fn.name))
     for q in ("ModelingUpdate.compute_hourly_quantities_to_filter", "ModelingUpdate.filter_hourly_quantities_to_filter"):
         rel, fn = pm.find_function(MU, q)
         res.instances += 1
@@ -1337,4 +1377,141 @@ def r_once(E):
                     res.samples.append({"rule": f"{o}.{f.name}", "sums_over": f"self.{it.attr}", "defined_in": po,
                                         "verdict": "de-duplicated or a plain link list"})
     res.floor = 8
+    return res
+
+
+# ---------------------------------------------------------------------------------------------- R-SETORDER (C19, C13, C16)
+_SET_OPS = (ast.Sub, ast.BitOr, ast.BitAnd, ast.BitXor)
+_SET_METHODS = {"union", "intersection", "difference", "symmetric_difference"}
+_POSITIVE_SETORDER = """
+def rebuild(ids, table):
+    wanted = set(i for i in ids if i in table)
+    return ListLinkedToModelingObj([table[i] for i in wanted - {None}])
+"""
+
+
+def _fn_of(n):
+    x = getattr(n, "_parent", None)
+    while x is not None and not isinstance(x, ast.FunctionDef):
+        x = getattr(x, "_parent", None)
+    return x
+
+
+def _defs_of(name, fn):
+    return [n.value for n in ast.walk(fn) if isinstance(n, ast.Assign) and any(
+        isinstance(t, ast.Name) and t.id == name for t in n.targets)] if fn is not None else []
+
+
+def _is_set(e, fn, seen=()):
+    """e is statically a set: its iteration order depends on the process hash seed / on (random) identifiers"""
+    if isinstance(e, (ast.Set, ast.SetComp)):
+        return True
+    if isinstance(e, ast.Call):
+        if isinstance(e.func, ast.Name) and e.func.id in ("set", "frozenset"):
+            return True
+        if isinstance(e.func, ast.Attribute) and e.func.attr in _SET_METHODS:
+            return True
+    if isinstance(e, ast.BinOp) and isinstance(e.op, _SET_OPS):
+        def view(x):
+            return isinstance(x, ast.Call) and isinstance(x.func, ast.Attribute) and x.func.attr in ("keys", "items")
+        return _is_set(e.left, fn, seen) or _is_set(e.right, fn, seen) or view(e.left) or view(e.right)
+    if isinstance(e, ast.Name) and e.id not in seen:
+        ds = _defs_of(e.id, fn)
+        return bool(ds) and all(_is_set(d, fn, seen + (e.id,)) for d in ds)
+    return False
+
+
+def _order_source(e, fn, find_function, depth=3, seen=()):
+    """the expression (text) of a set whose iteration order decides the order of the list e, or None: followed through
+    list() / comprehensions / append loops / local names / package functions that return the list"""
+    if e is None:
+        return None
+    if _is_set(e, fn):
+        return e
+    if isinstance(e, (ast.ListComp, ast.GeneratorExp)):
+        for g in e.generators:
+            r = _order_source(g.iter, fn, find_function, depth, seen)
+            if r is not None:
+                return r
+        return None
+    if isinstance(e, ast.Call):
+        if isinstance(e.func, ast.Name) and e.func.id == "sorted":
+            return None
+        if isinstance(e.func, ast.Name) and e.func.id in ("list", "tuple", "reversed", "iter", "enumerate") and e.args:
+            return _order_source(e.args[0], fn, find_function, depth, seen)
+        if isinstance(e.func, ast.Attribute) and norm(e.func) == "dict.fromkeys" and e.args:
+            return _order_source(e.args[0], fn, find_function, depth, seen)
+        if isinstance(e.func, ast.Name) and depth > 0 and find_function is not None:
+            h = find_function(e.func.id)
+            if h is not None and h.name not in seen:
+                from ..astutil import helper_view
+                hv = helper_view(h, e)
+                for r in [n for n in ast.walk(hv) if isinstance(n, ast.Return) and n.value is not None]:
+                    s = _order_source(r.value, hv, find_function, depth - 1, seen + (h.name,))
+                    if s is not None:
+                        return s
+        return None
+    if isinstance(e, ast.BinOp) and isinstance(e.op, ast.Add):
+        return _order_source(e.left, fn, find_function, depth, seen) or _order_source(e.right, fn, find_function, depth, seen)
+    if isinstance(e, ast.Name) and fn is not None and ("$" + e.id) not in seen:
+        seen2 = seen + ("$" + e.id,)
+        for d in _defs_of(e.id, fn):
+            s = _order_source(d, fn, find_function, depth, seen2)
+            if s is not None:
+                return s
+        for c in ast.walk(fn):
+            if isinstance(c, ast.Call) and isinstance(c.func, ast.Attribute) and isinstance(c.func.value, ast.Name) \
+                    and c.func.value.id == e.id and c.func.attr in ("append", "extend", "insert"):
+                if c.func.attr == "extend" and c.args:
+                    s = _order_source(c.args[0], fn, find_function, depth, seen2)
+                    if s is not None:
+                        return s
+                x = getattr(c, "_parent", None)
+                while x is not None and x is not fn:
+                    if isinstance(x, ast.For):
+                        s = _order_source(x.iter, fn, find_function, depth, seen2)
+                        if s is not None:
+                            return s
+                    x = getattr(x, "_parent", None)
+        for a in ast.walk(fn):
+            if isinstance(a, ast.AugAssign) and isinstance(a.target, ast.Name) and a.target.id == e.id:
+                s = _order_source(a.value, fn, find_function, depth, seen2)
+                if s is not None:
+                    return s
+    return None
+
+
+@rule("R-SETORDER")
+def r_setorder(E):
+    pm = E.pm
+    res = RuleResult("R-SETORDER", "the content handed to a stored link list (ListLinkedToModelingObj(...)) never takes its "
+                                   "order from the iteration of a set: link lists are ordered (the steps of a journey are "
+                                   "walked in list order) and set order depends on the hash seed and on random identifiers")
+    from ..astutil import set_parents
+    pf = pm.package_function_finder()
+
+    def sites(tree):
+        for n in ast.walk(tree):
+            if isinstance(n, ast.Call) and isinstance(n.func, ast.Name) and n.func.id == "ListLinkedToModelingObj" and n.args:
+                yield n
+    for mod, (rel, tree, src) in sorted(pm.modules.items()):
+        for n in sites(tree):
+            res.instances += 1
+            fn = _fn_of(n)
+            s = _order_source(n.args[0], fn, pf)
+            if s is not None:
+                q = fn.name if fn is not None else "<module>"
+                res.findings.append(Finding(
+                    "R-SETORDER", f"{q} :: link list ordered by a set :: {norm(s)[:60]}",
+                    f"{q} builds the link list `{norm(n)[:70]}` in the iteration order of the set `{norm(s)[:70]}`: the order "
+                    f"of the stored list (for a journey, the order of its steps, which decides the hour of every job) "
+                    f"then depends on the hash seed and on the objects' random identifiers, and duplicates are lost", rel,
+                    n.lineno, q))
+            elif len(res.samples) < 6:
+                res.samples.append({"site": f"{rel}:{int(n.lineno)}", "list": norm(n)[:70]})
+    # the rule still recognises the construct it forbids
+    pos = set_parents(ast.parse(_POSITIVE_SETORDER))
+    if not any(_order_source(n.args[0], _fn_of(n), None) is not None for n in sites(pos)):
+        raise AnalysisError("R-SETORDER: the embedded positive example is no longer recognised")
+    res.floor = 6
     return res
